@@ -34,8 +34,8 @@ impl<P: Write> WriteBuffer for IoBuffer<P> {
                         self.poisoned = true;
                         #[cfg(feature = "verif")]
                         crate::common::verif::emit(crate::common::verif::Event::Poison);
-                        return Err(e);
                     }
+                    return Err(e);
                 }
             }
         }
